@@ -5,8 +5,10 @@ import (
 	"math"
 	"math/big"
 	"regexp"
+	"runtime"
 	"strconv"
 	"strings"
+	"sync"
 	"time"
 
 	"github.com/pip-services3-gox/pip-services3-expressions-gox/calculator"
@@ -350,6 +352,13 @@ func propC08(c *Ctx) {
 			runFnCase(c, "u", f, args)
 		}
 	}
+	draws := 200000000
+	if c.Thorough {
+		draws = 2000000000
+	}
+	rndRange(c, "Rnd", draws)
+	rndRange(c, "random", draws/4)
+	c.Notes = append(c.Notes, fmt.Sprintf("Rnd range: %d draws on all cores, each checked against [0,1)", draws+draws/4))
 	runFnCase(c, "u", "nosuchfunction", nil)
 	runFnCase(c, "u", "sın", []*variants.Variant{vInt(1)}) // dotless i upper-cases to I
 	c.Notes = append(c.Notes, fmt.Sprintf("37 registered names in random letter case x %d argument lists each (valid arities 3/4 of the time, otherwise 0..8 arguments) from the boundary pool of 10 types, both managers; clock/random checked against the call interval / [0,1); transcendental functions checked against Go's math on the converted argument; Min/Max/Sum against the left fold", reps))
@@ -395,7 +404,52 @@ func runFnEdited(c *Ctx, m, name, removed string, args []*variants.Variant, plai
 	}
 }
 
+// the range of Rnd / Random over a large sample: a value outside [0,1) that a generator produces once in tens of millions
+// of draws (a rounded-up 1.0) is seen with high probability; n draws on all cores
+func rndRange(c *Ctx, name string, n int) {
+	op := fmt.Sprintf("rndrange %s %d", name, n)
+	c.record(op, true)
+	c.count("rnd-range-sample")
+	workers := runtime.NumCPU()
+	bad := make(chan string, workers)
+	var wg sync.WaitGroup
+	for w := 0; w < workers; w++ {
+		wg.Add(1)
+		go func() {
+			defer wg.Done()
+			defer func() {
+				if r := recover(); r != nil {
+					bad <- fmt.Sprint("panic: ", r)
+				}
+			}()
+			fn := functions.NewDefaultFunctionCollection().FindByName(name)
+			ops := mgrOf("u")
+			for i := 0; i < n/workers; i++ {
+				r, err := fn.Calculate(nil, ops)
+				if err != nil || r == nil || r.Type() != variants.Float {
+					bad <- fmt.Sprintf("call %d did not return a Float", i)
+					return
+				}
+				if v := r.AsFloat(); !(v >= 0 && v < 1) {
+					bad <- fmt.Sprintf("draw %d of this worker returned %v, outside [0,1)", i, v)
+					return
+				}
+			}
+		}()
+	}
+	wg.Wait()
+	close(bad)
+	if msg, ok := <-bad; ok {
+		c.fail(Failure{Kind: "oracle", Op: op, Impl: msg, Note: fmt.Sprintf("%s() over %d draws: %s", name, n, msg)})
+	}
+}
+
 func replayC08(c *Ctx, op string) {
+	if f := strings.Fields(op); len(f) == 3 && f[0] == "rndrange" {
+		n, _ := strconv.Atoi(f[2])
+		rndRange(c, f[1], 4*n) // a statistical finding: the replay draws four times as many
+		return
+	}
 	if f := strings.Fields(op); len(f) >= 4 && f[0] == "fnedit" {
 		var args []*variants.Variant
 		for _, a := range f[4:] {
